@@ -78,7 +78,7 @@ pub enum RK {
     Join { a: Src, b: Src },
     Select { a: Src, b: Src },
     Burst { m: S, a: Src },
-    SelfAbort { a: Src, m: S, handle: u16 },
+    SelfAbort { a: Src, m: Option<S>, handle: u16 },
     HandOff { a: Src, b: Src, c: S },
     StreamUntil { a: Src, b: Src },
     /// req a -> event; then spawns (req b with arg = value -> event)
@@ -204,7 +204,7 @@ impl RCmd {
                 c
             }
             P::Manual(q) => RCmd::build(q),
-            P::SelfAbort(s, _) => {
+            P::SelfAbort(s, _) | P::QuietSelfAbort(s) => {
                 let mut c = single(task(RK::Fresh(p.clone())));
                 c.abort_ids.push(2000 + s.id);
                 c
@@ -503,7 +503,12 @@ impl RCmd {
                 P::SelfAbort(s, m) => {
                     let mut a = Src::new(s);
                     cx.eff(&mut a, Kind::Once, 0);
-                    t.kind = RK::SelfAbort { a, m, handle: 2000 + s.id };
+                    t.kind = RK::SelfAbort { a, m: Some(m), handle: 2000 + s.id };
+                }
+                P::QuietSelfAbort(s) => {
+                    let mut a = Src::new(s);
+                    cx.eff(&mut a, Kind::Once, 0);
+                    t.kind = RK::SelfAbort { a, m: None, handle: 2000 + s.id };
                 }
                 P::HandOff(s, u, c) => {
                     let (mut a, mut b) = (Src::new(s), Src::new(u));
@@ -717,10 +722,14 @@ impl RCmd {
             }
             RK::SelfAbort { a, m, handle } => match a.st {
                 St::V(v) => {
-                    cx.got(a.site, v);
                     // aborts the command it runs in; what it emits in this poll is still delivered
-                    cx.aborts.push(*handle);
-                    cx.mark(*m, 0);
+                    if let Some(m) = m {
+                        cx.got(a.site, v);
+                        cx.aborts.push(*handle);
+                        cx.mark(*m, 0);
+                    } else {
+                        cx.aborts.push(*handle);
+                    }
                     Run::Finished
                 }
                 St::G => Run::Finished,
@@ -888,7 +897,13 @@ impl RCmd {
                         next_uid: cx.next_uid,
                         aborts: cx.aborts,
                     };
+                    let aborted_before = cur.aborted;
                     cur.settle(&mut sub);
+                    if !aborted_before && cur.aborted {
+                        // raised by one of its own tasks during this poll: `poll_next` ends with
+                        // `is_done()`, which settles once more and notices it (prompt, not lazy)
+                        cur.settle(&mut sub);
+                    }
                     if !cur.is_fin() {
                         return Run::Pending;
                     }
@@ -1133,7 +1148,11 @@ impl RState {
             if poll_all || spur || !r.ready.is_empty() || !r.spawnq.is_empty() {
                 let mut aborts = vec![];
                 let mut cx = Ctx { out: &mut out, eff_tags: 0, ev_tags: 0, next_uid: &mut self.next_uid, aborts: &mut aborts };
+                let aborted_before = r.aborted;
                 r.settle(&mut cx);
+                if !aborted_before && r.aborted {
+                    r.settle(&mut cx);
+                }
             }
         }
         for o in &out {
